@@ -7,6 +7,8 @@ import (
 	"fmt"
 	"sort"
 	"strings"
+	"sync"
+	"sync/atomic"
 	"time"
 
 	"github.com/attestantio/dirk/core"
@@ -51,6 +53,10 @@ type DkgScenario struct {
 	// first instance that does not hold an account of that name (Initiator is ignored).
 	Prior              *PriorGen `json:"prior"`
 	InitiatorNonHolder bool      `json:"initiator_nonholder"`
+	// StormMs > 0: for that long, peers and non-peers send key-generation messages to the first instance CONCURRENTLY (C16 under
+	// concurrent arrival): StormWorkers streams per side
+	StormMs      int `json:"storm_ms"`
+	StormWorkers int `json:"storm_workers"`
 }
 
 // PriorGen describes the earlier generation of the same name.
@@ -199,6 +205,10 @@ func RunDkgScenario(ctx context.Context, sc *DkgScenario, log *Log) error {
 			ev[k] = v
 		}
 		log.Emit(ev)
+	}
+
+	if sc.StormMs > 0 {
+		c.storm(ctx, sc, log)
 	}
 
 	// ---- a complete generation driven by the initiator
@@ -555,4 +565,151 @@ func thresholdEvent(log *Log, parts []uint64, sigs map[uint64]bls.Sign, composit
 		_, tm1None, ntm1 = check(t - 1)
 	}
 	log.Emit(Ev{"ev": "Threshold", "t_ok": tAll, "tm1_fail": tm1None, "subsets_t": nt, "subsets_tm1": ntm1})
+}
+
+// storm: for sc.StormMs milliseconds genuine peers run small generations' worth of messages (prepare, contribute, abort) against the
+// first instance while callers that are NOT peers send every kind of message at the same time - new names, and the names the peers
+// are using right now.  Every non-peer call is logged (ConcCall); for peers only the share-ownership of contribution replies is.
+func (c *Cluster) storm(ctx context.Context, sc *DkgScenario, log *Log) {
+	in := c.Inst[c.Order[0]]
+	workers := sc.StormWorkers
+	if workers == 0 {
+		workers = 4
+	}
+	peersOf := []uint64{}
+	for _, id := range c.Order[1:] {
+		peersOf = append(peersOf, id)
+	}
+	parts := make([]*pb.Endpoint, len(c.Order))
+	for j, id := range c.Order {
+		parts[j] = &pb.Endpoint{Id: id, Name: peerName(id), Port: uint32(10000 + id%50000)}
+	}
+	var mu sync.Mutex
+	active := []string{}
+	note := func(name string, add bool) {
+		mu.Lock()
+		defer mu.Unlock()
+		if add {
+			active = append(active, name)
+			if len(active) > 32 {
+				active = active[len(active)-32:]
+			}
+		}
+	}
+	pick := func(i int) string {
+		mu.Lock()
+		defer mu.Unlock()
+		if len(active) == 0 {
+			return "DW/none"
+		}
+		return active[len(active)-1-i%min(len(active), 4)]
+	}
+	contribution := func(t int, forID uint64) (bls.SecretKey, [][]byte, []bls.PublicKey) {
+		sks := make([]bls.SecretKey, t)
+		vv := make([][]byte, t)
+		pks := make([]bls.PublicKey, t)
+		for k := range sks {
+			sks[k].SetByCSPRNG()
+			pks[k] = *sks[k].GetPublicKey()
+			vv[k] = pks[k].Serialize()
+		}
+		var share bls.SecretKey
+		_ = share.Set(sks, util.BLSID(forID))
+		return share, vv, pks
+	}
+	wctx, stop := context.WithTimeout(ctx, time.Duration(sc.StormMs)*time.Millisecond)
+	defer stop()
+	var wg sync.WaitGroup
+	var peerCalls, peerOK, intruderCalls int64
+	guard := func() {
+		if r := recover(); r != nil {
+			mu.Lock()
+			in.Crashed = fmt.Sprint(r)
+			mu.Unlock()
+			stop()
+		}
+	}
+	for w := 0; w < workers; w++ {
+		// a genuine peer
+		wg.Add(1)
+		go func(w int) {
+			defer wg.Done()
+			defer guard()
+			pid := peersOf[w%len(peersOf)]
+			cctx := callerCtx(ctx, peerName(pid))
+			for i := 0; wctx.Err() == nil; i++ {
+				name := fmt.Sprintf("DW/storm%d_%d", w, i)
+				_, err := in.RecvH.Prepare(cctx, &pb.PrepareRequest{Account: name, Passphrase: []byte("pass"), Threshold: 2, Participants: parts})
+				atomic.AddInt64(&peerCalls, 1)
+				if err != nil {
+					continue
+				}
+				atomic.AddInt64(&peerOK, 1)
+				note(name, true)
+				share, vv, _ := contribution(2, in.ID)
+				res, err := in.RecvH.Contribute(cctx, &pb.ContributeRequest{Account: name, Secret: share.Serialize(), VerificationVector: vv})
+				atomic.AddInt64(&peerCalls, 1)
+				if err == nil && res != nil && len(res.GetSecret()) > 0 {
+					atomic.AddInt64(&peerOK, 1)
+					// whose share does the reply carry?  it must verify for THIS caller's id against the replier's vector
+					var rs bls.SecretKey
+					rv := make([]bls.PublicKey, len(res.GetVerificationVector()))
+					okv := rs.Deserialize(res.GetSecret()) == nil
+					for k, b := range res.GetVerificationVector() {
+						okv = okv && rv[k].Deserialize(b) == nil
+					}
+					others := []uint64{}
+					if okv {
+						for _, id := range c.Order {
+							if id != pid && verifyShare(id, rs, rv) {
+								others = append(others, id)
+							}
+						}
+					}
+					log.Emit(Ev{"ev": "ContribReply", "from": in.ID, "to": pid, "for_caller": okv && verifyShare(pid, rs, rv), "for_others": others, "concurrent": true})
+				}
+				_, _ = in.RecvH.Abort(cctx, &pb.AbortRequest{Account: name})
+				atomic.AddInt64(&peerCalls, 1)
+			}
+		}(w)
+		// a caller that is not a peer (a fully permitted ordinary client, an unknown name, no name at all); streams share names
+		wg.Add(1)
+		go func(w int) {
+			defer wg.Done()
+			defer guard()
+			caller := []string{"c1", "c1", "nobody", ""}[w%4]
+			cctx := callerCtx(ctx, caller)
+			for i := 0; wctx.Err() == nil; i++ {
+				msg := []string{"prepare", "contribute", "abort", "execute", "commit", "contribute", "abort"}[i%7]
+				name := pick(i)
+				if msg == "prepare" {
+					name = fmt.Sprintf("DW/intruder%d_%d", w, i)
+				}
+				var err error
+				gotShare := false
+				switch msg {
+				case "prepare":
+					_, err = in.RecvH.Prepare(cctx, &pb.PrepareRequest{Account: name, Passphrase: []byte("pass"), Threshold: 2, Participants: parts})
+				case "execute":
+					_, err = in.RecvH.Execute(cctx, &pb.ExecuteRequest{Account: name})
+				case "commit":
+					_, err = in.RecvH.Commit(cctx, &pb.CommitRequest{Account: name, ConfirmationData: make([]byte, 32)})
+				case "abort":
+					_, err = in.RecvH.Abort(cctx, &pb.AbortRequest{Account: name})
+				case "contribute":
+					share, vv, _ := contribution(2, in.ID)
+					var res *pb.ContributeResponse
+					res, err = in.RecvH.Contribute(cctx, &pb.ContributeRequest{Account: name, Secret: share.Serialize(), VerificationVector: vv})
+					gotShare = err == nil && res != nil && len(res.GetSecret()) > 0
+				}
+				// every call that was NOT refused is logged; of the refused ones (tens of thousands per second) every sixteenth
+				atomic.AddInt64(&intruderCalls, 1)
+				if err == nil || gotShare || i%16 == 0 {
+					log.Emit(Ev{"ev": "ConcCall", "caller": caller, "msg": msg, "account": name, "result": errClass(err), "got_share": gotShare})
+				}
+			}
+		}(w)
+	}
+	wg.Wait()
+	log.Emit(Ev{"ev": "StormEnd", "peer_calls": atomic.LoadInt64(&peerCalls), "peer_ok": atomic.LoadInt64(&peerOK), "non_peer_calls": atomic.LoadInt64(&intruderCalls), "crashed": in.Crashed != ""})
 }
